@@ -47,6 +47,12 @@ INFO = {
    "a map with int/i32/rune keys (or struct/interface keys containing them) at least two of which differ by more than 2^31-1, and a tree rotation or successor copy that moves such a key"),
  "C10-bump-fit-check-without-header": ("both allocator copies, $heap_new_allocation: the fits-below-heap-top test uses the payload size without the 8-byte block header",
    "a request served by the bump allocator whose rounded size equals exactly __heap_top - __heap_ptr"),
+ "C07-tab-in-interpreted-literal": ("internal/printer/printer.go print(): only raw strings are bracketed for the tabwriter, a literal TAB inside an interpreted string or rune literal is treated as a cell separator and replaced by blanks",
+   "a .wa file with a literal TAB byte inside \"...\" or a rune literal"),
+ "C01-map-delete-right-child-parent": ("waroot/src/runtime/map.wa mapImp.Delete: when the last node is moved into the freed slot its right child's parent index is not rewritten (Left used twice)",
+   "last node of the node table has a right child, an older key is deleted, a new key is inserted (reusing the stale slot), then an operation whose fix-up passes through that child's parent"),
+ "C16-f32-to-u32-uses-f64-trunc": ("wir/instruction_emitter.go EmitGenConvert: the f32 -> u32 and f64 -> u32 arms were merged keeping only i64.trunc_f64_s: an f32 operand is fed to an f64 instruction, the module is invalid",
+   "a conversion of a non-constant f32 value to u32 / uint / uintptr (or a named type over them)"),
  "C04-label-shadow-outermost": ("wat2wasm_helper.go findLabelIndex walks the label stack from the outermost scope: a label name bound twice in nested block/loop/if resolves to the outer binding",
    "a function with two nested blocks/loops/ifs carrying the same label name and a br/br_if/br_table naming it from inside the inner one"),
  "C18-la64-carry-boundary-0x800": ("internal/native/pcrel/la64.go MakeLa64PCRel: hi20 carry applied for lo12 > 0x800 instead of >= 0x800",
